@@ -10,6 +10,8 @@
 import ProphyModel.Spec
 import ProphyModel.Lemmas.Render
 import ProphyModel.Lemmas.PyEncode
+import ProphyModel.Lemmas.CppEncode
+import ProphyModel.Lemmas.NoShift
 namespace Prophy.C19
 open Prophy Prophy.Spec
 
@@ -109,6 +111,24 @@ theorem C19_py_encode (t : Ty) (v : Val) (bl bb : Bytes)
   injection hl with hl; injection hb with hb
   subst hl; subst hb
   exact ⟨C19_mirror t v, C19_mirror_back t v, C19_same_length t v, C19_padding_zero t v .little, C19_padding_zero t v .big⟩
+
+
+/-- the same for the C++ full codec's vector encoders (through C03): `encode<big>()` is
+    `encode<little>()` with every scalar reversed in place, equally long, paddings zero -/
+theorem C19_cpp_encode (t : Ty) (v : Val) (bl bb : Bytes)
+    (hf : Accept.front t = true) (hns : Accept.noShift t = true) (hm : Cpp.optMisaligned t = false)
+    (hv : hasType t v = true) (ha : WF.agreeTy t v = true)
+    (hlen : (Spec.enc t v .little).length < 2 ^ 64)
+    (hl : Cpp.encodeVec t v .little = .ok bl) (hb : Cpp.encodeVec t v .big = .ok bb) :
+    bb = mirror (chunksTy t v) bl ∧ bb.length = bl.length ∧ padsZero (chunksTy t v) bl ∧ padsZero (chunksTy t v) bb := by
+  have hp := Accept.pyRt_of_front t hf hns
+  have hns' : Cpp.noShift_cppenc t = true := by rw [Cpp.noShift_cppenc_eq_accept]; exact hns
+  have hlen' : (Spec.enc t v .big).length < 2 ^ 64 := by rw [C19_same_length]; exact hlen
+  rw [Cpp.encodeVec_canonical t v .little hf hp hm hns' hv ha hlen] at hl
+  rw [Cpp.encodeVec_canonical t v .big hf hp hm hns' hv ha hlen'] at hb
+  injection hl with hl; injection hb with hb
+  subst hl; subst hb
+  exact ⟨C19_mirror t v, C19_same_length t v, C19_padding_zero t v .little, C19_padding_zero t v .big⟩
 
 /-- non-vacuity / documentation: encoding.rst "Integer padding" in both orders -/
 def exT : Ty := .struct "X" [.mk "a" (.prim .u8) .plain, .mk "b" (.prim .u16) .plain]
